@@ -43,7 +43,7 @@ func TestVerifC18ServerSelectsEachShare(t *testing.T) {
 			st.Violation(rt, "%s: %v", src, err)
 		}
 		probe.CP.Close()
-		var groups []uint16
+		var groups, scripted []uint16
 		for _, ks := range probe.Offer.Hello.KeyShares() {
 			if vfIsGREASE(ks.Group) {
 				continue
@@ -56,17 +56,42 @@ func TestVerifC18ServerSelectsEachShare(t *testing.T) {
 			}
 			if vfContains16(vf18ServerGroups, ks.Group) {
 				groups = append(groups, ks.Group)
+			} else if ks.Group == 0x6399 {
+				scripted = append(scripted, ks.Group) // X25519Kyber768Draft00: upstream's server cannot select it, the scripted one can
 			} else {
 				st.Class(fmt.Sprintf("share-not-selectable-by-upstream-server:%04x", ks.Group))
 			}
 		}
-		if len(groups) == 0 {
-			st.Class("no-selectable-share")
-			return
-		}
 		keys := vfCertKeysFor(probe.Offer, VersionTLS13, "")
 		if len(keys) == 0 {
 			st.Class("no-cert-type")
+			return
+		}
+		// shares only the scripted server can select: it performs the real exchange with the client's share, so the
+		// handshake completes (Finished verified on both sides, data both ways) exactly when the client derives the
+		// server's secret
+		for _, g := range scripted {
+			p2, err := vfPrepareClient(src, sni, rapid.Uint64().Draw(rt, fmt.Sprintf("scripted_seed_%04x", g)), nil)
+			if err != nil {
+				st.Violation(rt, "%s: %v", src, err)
+			}
+			sc := &vsrvScript{Group: g}
+			srv := Server(p2.SP, vfServerConfig(keys[0], vfCertNames(sni)...))
+			vsrvInstall(srv, sc)
+			pair := &vfPair{CP: p2.CP, SP: p2.SP, Cli: p2.UC, Srv: srv}
+			cerr, serr := pair.Handshake()
+			if cerr != nil || serr != nil || !sc.Completed || !sc.UsedShare {
+				st.Violation(rt, "%s: scripted server selected the offered share %#04x (real exchange with the client's share: %v): client err=%v server err=%v completed=%v log=%v", src, g, sc.UsedShare, cerr, serr, sc.Completed, sc.Log)
+			}
+			if err := pair.Echo([]byte("c18"), []byte("C18")); err != nil {
+				st.Violation(rt, "%s: scripted server selected %#04x: data exchange: %v", src, g, err)
+			}
+			pair.Close()
+			st.Class(fmt.Sprintf("selected-by-scripted-server=%04x", g))
+			st.NonTrivial(fmt.Sprintf("%s|scripted|%04x", src.Kind+":"+src.Name, g))
+		}
+		if len(groups) == 0 {
+			st.Class("no-selectable-share")
 			return
 		}
 		// a real ECH configuration (accepted by the server) for sources whose hello carries an ECH extension: the
